@@ -19,13 +19,19 @@ IntT(i)  == TInt(70 + i, 40 + i)
 StrT(i, b) == TStr(80 + i, b)
 Fxvy == <<120, 37, 118, 121>>                 \* "x%vy"
 
-QOps == { SSafeString(<<A>>), SSafeString(StartM), SSafeUint(76, -1), SSafeString(<<A>> \o EndM), SUnsafeString(<<A>>), SUnsafeString(<<NL, A>>), SUnsafeString(<<>>),
+QOps == { SSafeString(<<A>>), SSafeString(StartM), SSafeString(<<194, 186>>), SUnsafeString(<<A>> \o RuneErrorBytes), SSafeUint(76, -1), SSafeString(<<A>> \o EndM), SUnsafeString(<<A>>), SUnsafeString(<<NL, A>>), SUnsafeString(<<>>),
           SUnsafeString(EndM), SSafeRune(8250), SUnsafeRune(NL), SUnsafeByte(226), SSafeInt(71, 41),
-          SPrint(<<StrT(1, <<A, NL>>)>>), SPrint(<<TSafe(90, StrT(2, <<A>>))>>), SPrintf(Fxvy, <<IntT(2)>>), SWrite(<<A>>) }
+          SPrint(<<StrT(1, <<A, NL>>)>>), SPrint(<<TSafe(90, StrT(2, <<A>>))>>), SPrintf(Fxvy, <<IntT(2)>>), SWrite(<<A>>),
+          \* joining: a slice, a nil operand
+          SJoinTo(<<44>>, 160, TSlice(161, <<TStr(162, <<A>>), TInt(163, 46)>>)), SJoinTo(<<44>>, 160, TNil(164)) }
 TOps == QOps \cup { SSafeString(<<NL>>), SSafeBytes(Cross), SUnsafeBytes(<<A, 226>>), SSafeByte(A), SUnsafeString(<<PTok + 5>>),
                     SSafeRune(55296), SUnsafeRune(8249), SPrint(<<IntT(3), StrT(3, <<A>>)>>), SSafeString(<<>>),
                     SPrintf(<<37, 118, 37, 118>>, <<StrT(4, <<A>>), TSafe(91, IntT(4))>>), SWrite(<<NL>>), SSafeString(<<226, 128>>),
-                    SSafeUint(76, -1), SSafeFloat(77), SSafeString(EndM), SSafeBytes(<<A>> \o EndM) }
+                    SSafeUint(76, -1), SSafeFloat(77), SSafeString(RuneErrorBytes), SSafeString(<<226, 130, 186>>), SPrint(<<StrT(5, <<>>)>>), SSafeString(EndM), SSafeBytes(<<A>> \o EndM),
+                    \* joining: a delimiter that holds an envelope, an empty slice, non-slice operands, a typed slice
+                    SJoinTo(<<A>> \o StartM \o <<A>> \o EndM, 160, TSlice(161, <<TInt(165, 47), TInt(166, 48), TStr(167, <<A, 226>>)>>)), SJoinTo(<<44>>, 160, TSlice(161, <<>>)),
+                    SJoinTo(<<44>>, 160, TInt(168, 49)), SJoinTo(<<44>>, 160, TStr(169, <<A>>)), SJoinTo(<<44>>, 160, TNilPtr(170)),
+                    SJoinTo(<<44>>, 160, TTSlice(171, <<TStr(172, <<A>>), TStr(173, StartM)>>)) }
 Ops == IF OpSetName = "T" THEN TOps ELSE QOps
 
 Init == h = <<>>
@@ -34,9 +40,10 @@ Spec == Init /\ [][Next]_vars
 
 ---------------------------------------------------------------------------
 \* denotation: <<stripped text, visible text, all payloads valid UTF-8, renderings so far>>
-TermClassSafe(t) == t.k = "safe"
+TermClassSafe(t) == t.k \in {"safe", "nil"}              \* a nil operand prints as <nil>, in the clear
 RECURSIVE ArgText(_, _)          \* <<text, nr'>> of one Print operand printed with %v
 ArgText(t, nr) == CASE t.k = "string" -> <<t.b, nr>>
+                    [] t.k = "nil"    -> <<NilAngle, nr>>
                     [] t.k = "safe"   -> ArgText(t.xs[1], nr)
                     [] OTHER          -> <<<<RTok + nr + 1>>, nr + 1>>
 TextOK(b) == ValidUTF8(b)
@@ -50,9 +57,15 @@ DenArgs(ts, i, prevString, acc) ==
            sp == IF i > 1 /\ ~isString /\ ~prevString THEN <<SP>> ELSE <<>>
            at == ArgText(t, acc[4])
            safe == TermClassSafe(t)
-       IN DenArgs(ts, i + 1, isString,
+       IN IF t.k = "rstring"                        \* pre-redacted: passes through as it is
+          THEN DenArgs(ts, i + 1, TRUE, << acc[1] \o Strip(t.b), acc[2] \o DeleteEnvelopes(t.b), acc[3], acc[4] >>)
+          ELSE
+          DenArgs(ts, i + 1, isString,
                   << acc[1] \o sp \o Esc(at[1]), acc[2] \o sp \o (IF safe THEN Esc(at[1]) ELSE OnlyOf(at[1], NL)),
                      acc[3] /\ TextOK(at[1]), at[2] >>)
+
+RECURSIVE DenJoin(_, _)
+DenJoin(ops, acc) == IF ops = <<>> THEN acc ELSE DenJoin(Tail(ops), DenArgs(Head(ops).ts, 1, FALSE, acc))
 
 DenOp(op, acc) ==
   LET add(txt, safe, ok) == << acc[1] \o Esc(txt), acc[2] \o (IF safe THEN Esc(txt) ELSE OnlyOf(txt, NL)), acc[3] /\ ok, acc[4] >>
@@ -65,6 +78,7 @@ DenOp(op, acc) ==
        [] op.o \in {"SafeInt", "SafeUint", "SafeFloat"} ->
                                  << acc[1] \o <<RTok + acc[4] + 1>>, acc[2] \o <<RTok + acc[4] + 1>>, acc[3], acc[4] + 1 >>
        [] op.o = "Print"      -> DenArgs(op.ts, 1, FALSE, acc)
+       [] op.o = "JoinTo"     -> DenJoin(JoinOps(op), acc)
        \* Printf formats of the op sets are literal / %v only: literals are safe text
        [] op.o = "Printf"     -> IF op.f = Fxvy
                                  THEN LET a == DenArgs(op.ts, 1, TRUE, << acc[1] \o <<120>>, acc[2] \o <<120>>, acc[3], acc[4] >>)
